@@ -39,11 +39,21 @@ def problem(maximize):
     return _P[maximize]
 
 
-def run_nbc(genomes, fits, maximize, factor, trunc):
+def run_nbc(genomes, fits, maximize, factor, trunc, cloned=False):
     from pyhms.core.individual import Individual
     from pyhms.utils.clusterization import NearestBetterClustering
 
-    inds = [Individual(np.array(g, dtype=float), problem(maximize), float(f)) for g, f in zip(genomes, fits)]
+    if cloned:
+        # a population a user assembled from Individual.clone() copies of one individual (distinct genomes all the same)
+        base = Individual(np.array(genomes[0], dtype=float), problem(maximize), float(fits[0]))
+        inds = [base]
+        for g, f in zip(genomes[1:], fits[1:]):
+            c = base.clone()
+            c.genome = np.array(g, dtype=float)
+            c.fitness = float(f)
+            inds.append(c)
+    else:
+        inds = [Individual(np.array(g, dtype=float), problem(maximize), float(f)) for g, f in zip(genomes, fits)]
     nbc = NearestBetterClustering(inds, factor, trunc)
     out = nbc.cluster()
     idx = set()
@@ -68,6 +78,16 @@ def check_case(res, genomes, fits, maximize, factor, trunc, tag, meta=False):
     except Exception as e:
         res.add_violation(ID, f"C15/exception:{type(e).__name__}:{tag}", f"cluster() raised {type(e).__name__}: {e} on {rep['desc']}", {}, rep)
         return None
+    if len(genomes) >= 3 and h64(case) % 8 == 0:
+        try:
+            got_c, dist_c = run_nbc(genomes, fits, maximize, factor, trunc, cloned=True)
+        except Exception as e:
+            got_c, dist_c = {"EXC:" + type(e).__name__}, None
+        res.executions += 1
+        res.flags["case repeated with a population built from clone() copies"] += 1
+        if got_c != got:
+            res.add_violation(ID, f"C15/clones-differ:{tag}", f"the same genomes and fitness values given as clone() copies of one individual give {sorted(map(str, got_c))}, "
+                              f"as independent individuals {sorted(map(str, got))}: {rep['desc']}", {}, rep)
     res.transitions.add(h64((case, tuple(sorted(got, key=lambda v: -1 if v is None else v)))))
     res.outcomes.add(h64((len(got), st)))
     n = len(genomes)
